@@ -501,7 +501,8 @@ def standin_simulated_expectations(tier, seed):
     # exponentials of commuting sums: matrix() on .qubits vs the product of the rotation factors vs exp(i e sum)
     a, b, c = qs
     sums = [cirq.Z(a) * cirq.Z(b) + cirq.Z(b) * cirq.Z(c), 0.2 * cirq.Z(b) + 0.7 * cirq.Z(a), cirq.X(a) * cirq.X(b) + cirq.Z(a) * cirq.Z(b), cirq.X(c) + 0.5 * cirq.Z(a),
-            cirq.Y(b) * cirq.Y(c) - cirq.X(b) * cirq.X(c), 2j * cirq.X(a) + 3j * cirq.Z(b), 1.5 * cirq.X(a) * cirq.Y(b) * cirq.Z(c), cirq.Z(c) * cirq.Z(a) + cirq.Z(b)]
+            cirq.Y(b) * cirq.Y(c) - cirq.X(b) * cirq.X(c), 2j * cirq.X(a) + 3j * cirq.Z(b), 1.5 * cirq.X(a) * cirq.Y(b) * cirq.Z(c), cirq.Z(c) * cirq.Z(a) + cirq.Z(b),
+            -2j * cirq.X(a) - 3j * cirq.Z(b) * cirq.Z(c), -1j * cirq.X(a) * cirq.Y(b), 0.5j * cirq.Z(a) - 1.5j * cirq.Z(b), -0.7 * cirq.X(a) - 0.2 * cirq.X(b)]
     for ps, e in itertools.product(sums, (1.0, 0.3, -0.7, np.pi / 2)):
         cases += 1
         try:
@@ -529,7 +530,7 @@ def standin_simulated_expectations(tier, seed):
                 bad("PauliStringPhasor.identity", "the phasor of the identity string is exp(i pi e+) times the identity", phasor=ph)
     return dict(function=F + "/{pauli_string,linear_combinations,pauli_sum_exponential}.py + cirq/sim[simulated expectation values, exponentials of sums]", case="simulated-expectation",
                 bound="seeded 3-qubit parameterized circuits x 3 observables (strings and sums) x 2-4 sweep points x permuted qubit order x {default, integer, vector, simulation-state object} initial "
-                      "states x {Simulator, DensityMatrixSimulator}; 8 commuting sums x 4 exponents; identity-string phasors", cases=cases, distinct=cases, failures=len(fails), exhaustive=False, _fails=fails[:4])
+                      "states x {Simulator, DensityMatrixSimulator}; 12 commuting sums (Hermitian and anti-Hermitian, every sign) x 4 exponents; identity-string phasors", cases=cases, distinct=cases, failures=len(fails), exhaustive=False, _fails=fails[:4])
 standin_simulated_expectations.prop = "C14"
 
 
